@@ -230,6 +230,7 @@ func packDomainName(s string, msg []byte, off int, compression compressionMap, c
 		begin     int
 		compBegin int
 		compOff   int
+		nameLen   int // wire octets of the labels seen so far, length octets included
 		bs        []byte
 		wasDot    bool
 	)
@@ -280,6 +281,12 @@ loop:
 			labelLen := i - begin
 			if labelLen >= 1<<6 { // top two bits of length must be clear
 				return len(msg), ErrRdata
+			}
+
+			// the root label takes the last of the 255 wire octets
+			nameLen += 1 + labelLen
+			if nameLen > maxDomainNameWireOctets-1 {
+				return len(msg), ErrLongDomain
 			}
 
 			// off can already (we're in a loop) be bigger than len(msg)
